@@ -82,6 +82,9 @@ def plain(x, depth=0, memo=None):
         return {'__class__': x.__name__}
     if isinstance(x, BaseException):
         return {'__exc__': type(x).__name__, 'msg': str(x)}
+    if hasattr(x, '__canon__'):
+        return {'__obj__': type(x).__name__, 'canon': plain(x.__canon__(),
+                                                            depth + 1)}
     # generic object: class name + instance dict
     d = getattr(x, '__dict__', None)
     if d is not None:
